@@ -75,7 +75,7 @@ func genListing(rng *prng.R, allowErr bool) *listing {
 		n, maxStr = 0, 0
 	case c < 70:
 		n, maxStr = rng.Range(1, 12), rng.Pick(0, 1, 8, 20)
-	case c < 96:
+	case c < 97:
 		n, maxStr = rng.Range(1, 60), rng.Pick(3, 30, 60)
 	default:
 		n, maxStr = rng.Range(100, 300), rng.Pick(10, 100, 300)
@@ -645,7 +645,7 @@ func main() {
 	log.SetOutput(io.Discard)
 	r.Rule = "rd: random listings (0..300 entries, string fields 0..300 bytes, batches of 1..50, optional iterator error / early empty batch) on NewReaddir/NewFixedReaddir, read with count sequences mixing the largest entry size, +1, large, random, and below-premise counts, with reads at wrong offsets interleaved; cl: the CFileSys directory iterator over a session serving a real Readdir with a chosen iounit; e2e: CFileSys->CSession->conn->ServeConn->SFileSys(scripted FS) over a negotiated msize. Non-trivial: a non-empty listing with at least one read; distinct by canonical case text."
 	rng := prng.New(r.Seed)
-	nrd, ncl, ne2e := r.N(800, 20000), r.N(300, 6000), r.N(100, 2000)
+	nrd, ncl, ne2e := r.N(800, 20000), r.N(300, 4000), r.N(100, 2000)
 	for i := 0; i < nrd; i++ {
 		runRd(r, rng.Fork())
 	}
